@@ -123,6 +123,16 @@ class BinaryCarver(BaseCarver):
             len(y_values) == 2
         ), " - [BinaryCarver] y must be a binary Series (int or float, not object)"
 
+        # same checks for the target of the development sample
+        if y_dev is not None:
+            y_dev_values = unique(y_dev)
+            assert (0 in y_dev_values) & (
+                1 in y_dev_values
+            ), " - [BinaryCarver] y_dev must be a binary Series (int or float, not object)"
+            assert (
+                len(y_dev_values) == 2
+            ), " - [BinaryCarver] y_dev must be a binary Series (int or float, not object)"
+
         return x_copy, x_dev_copy
 
     def _aggregator(
